@@ -3,6 +3,16 @@
 import json
 
 CLAIMED = {
+    "C17": {
+        "text": "Proof over a model of the serde data model with one constructor per Serializer method (ser.rs: Serializer, KeySerializer, the Duration/Timestamp wrappers): scalars map to the corresponding CEL kind (signed -> int, unsigned -> uint, ...), sequences/tuples/tuple structs to lists of the converted elements in order (elementwise, first failing element aborts), structs and maps to maps keyed by field name / converted key (every field present, last wins), data-carrying variants to single-entry maps keyed by the variant name, KeySerializer accepts exactly int/uint/bool/char/string/unit-variant keys transparently through Some and newtype structs and any other key is an error; to_value_commutes_with_json: for JSON-representable data, converting and exporting to JSON equals serde_json::to_value (modelled) - incl. duplicate keys, char keys, non-finite floats. Conversion results are Except values: no panic outcome exists except for types that abuse the private marker names (excluded as adversarial, DESIGN.md). Tie to the code: a recursive Any type whose Serialize impl calls exactly the method each constructor names, depth <= 5, every integer width at its extremes, unsupported key kinds, wrappers at chrono's limits, plus JSON documents; compared: to_value, its JSON export and serde_json::to_value.",
+        "technique": "Lean 4 mutual structural induction over the serde data model with an accumulator-relating invariant + differential correspondence through a method-exact Serialize implementation",
+        "design_ref": "DESIGN.md section 5, C17",
+    },
+    "C18": {
+        "text": "Proof: to_json_total - export succeeds exactly for values containing no function value and no duration beyond 64-bit nanoseconds, and is an error otherwise (never a panic); the document has the corresponding shape (lists -> arrays in order, maps -> objects keyed by the key's text, bytes -> standard base64 with padding of the right length over the standard alphabet, timestamps -> RFC 3339 text, durations -> nanosecond count, non-finite doubles -> null); json_roundtrip - for JSON-native values with distinct string keys, importing the exported document yields a value equal to the original under CEL equality (which identifies the uint serde_json hands back with the int written). Tie to the code: values of every kind to depth 5 incl. functions nested in collections, durations on both sides of 2^63 ns, NaN/inf, empty collections and maps whose keys collide as text; compared: canonical document or error, and the re-imported value.",
+        "technique": "Lean 4 mutual structural induction over Value/Json (export/import accumulators related by an invariant) + differential correspondence",
+        "design_ref": "DESIGN.md section 5, C18",
+    },
     "C12": {
         "text": "Proof about the decoders (a character-for-character port of parse.rs and visit_Bytes): string_roundtrip_partial - in the one-line quoting styles every string, under every per-character choice among verbatim, the single-character escapes, \\xHH, \\XHH, \\OOO, \\uHHHH, \\UHHHHHHHH, decodes to exactly itself; bytes_roundtrip - the same for byte sequences in all four quoting styles, raw_bytes_verbatim for raw bytes literals; each escape form denotes the code point / byte written (escape_*_denotation); escapes naming surrogates or values beyond U+10FFFF are rejected; \\u/\\U are not bytes escapes; raw strings perform no escape processing except for the exactly characterised defect. Genuine defects of the quote-toggling decoder are not repaired (two are pinned by the repository's own unit tests) but recorded as known findings D5a/b/c, each with a kernel-checked *_counterexample theorem and a narrow matcher; D25 (raw triple-quoted literals reject U+0000/U+10FFFF) is a quirk of the third-party ANTLR runtime. Tie to the code: every \\x, \\X, \\OOO, single-character escape and a stratified \\u/\\U sample in every style, random strings/bytes in every applicable style with random spellings, malformed spellings - compiled and executed on both sides (the model uses its own lexer and parser) and compared with the text that was spelled.",
         "technique": "Lean 4 theorems about fuel-indexed decoder state machines (step lemma per spelling, induction over the spelled characters, kernel-decided counterexamples) + differential correspondence through the model's own lexer/parser + known-findings protocol",
